@@ -12,7 +12,7 @@ theorem Inv.congr {s s' : State} (hI : Inv s) (h1 : s'.pc = s.pc) (h2 : s'.lock 
     (h4 : s'.box = s.box) (h5 : s'.fr = s.fr) (h6 : s'.glist = s.glist) (h7 : s'.hnext = s.hnext)
     (h8 : s'.wslot = s.wslot) (h9 : s'.bad = s.bad) : Inv s' := by
   obtain ⟨kindC, kindF, lockOk, frWait, freshOk, freshUniq, freshVer, freshVerT, freshNode, wFreeTaken, preOk, postOk, ownOk, rsmTaken,
-    freeTaken, pubNode, waiting, parked, listOk, scanOk, prevOk, placed, oScanOk, oNoneOk, aUnlockOk, aNextOk, aResumeOk, aFreeOk,
+    freeTaken, pubNode, waiting, parked, listOk, scanOk, prevOk, placed, freshHolder, scanL0, unlockL0, oScanOk, oNoneOk, aUnlockOk, aNextOk, aResumeOk, aFreeOk,
     noRead, cTakeOk, cRemoveOk, allocUsed, noBad⟩ := hI
   constructor <;> (try unfold ListOk ScanOk PrevOk MemOk CancelPending at *) <;> simp only [h1, h2, h3, h4, h5, h6, h7, h8, h9] <;> assumption
 
@@ -38,7 +38,7 @@ theorem Inv.pcOnly {s : State} (hI : Inv s) {a : Actor} {p : Pc}
     Inv (s.setPc a p) := by
   have hI' := hI
   obtain ⟨kindC, kindF, lockOk, frWait, freshOk, freshUniq, freshVer, freshVerT, freshNode, wFreeTaken, preOk, postOk, ownOk, rsmTaken,
-    freeTaken, pubNode, waiting, parked, listOk, scanOk, prevOk, placed, oScanOk, oNoneOk, aUnlockOk, aNextOk, aResumeOk, aFreeOk,
+    freeTaken, pubNode, waiting, parked, listOk, scanOk, prevOk, placed, freshHolder, scanL0, unlockL0, oScanOk, oNoneOk, aUnlockOk, aNextOk, aResumeOk, aFreeOk,
     noRead, cTakeOk, cRemoveOk, allocUsed, noBad⟩ := hI
   constructor
   case kindC => inv_auto
@@ -78,6 +78,9 @@ theorem Inv.pcOnly {s : State} (hI : Inv s) {a : Actor} {p : Pc}
     · inv_simp; grind [updA, Pc.pend, Pc.locks]
     · inv_simp; grind [updA]
   case placed => inv_auto
+  case freshHolder => inv_auto
+  case scanL0 => inv_auto
+  case unlockL0 => inv_auto
   case oScanOk => inv_auto
   case oNoneOk => inv_auto
   case aUnlockOk => inv_auto
